@@ -230,7 +230,11 @@ partial def runScan (out : IO.FS.Stream) (b : ByteArray) (i : Nat) : IO Unit := 
       let txt := bytesToChars b (e + 1) (e + 1 + n)
       emit out s!"case {String.ofList id}\n"
       match scanText txt with
-      | .ok ms => emitBlob out "ok" (printText ms)
+      | .ok ms =>
+        emitBlob out "ok" (printText ms)
+        match scanLastTemps txt with
+        | .ok ks => emit out s!"lasttemp {" ".intercalate (ks.map toString)}\n"
+        | .error _ => pure ()
       | .error err => emit out s!"err {errStr err}\n"
       runScan out b (e + 1 + n + 1)
   | _ => runScan out b (e + 1)
